@@ -230,6 +230,13 @@ def gen_case(rng, tier, i=None):
         elif site == 'field':
             expr = good_value if injected else bad
             r['fields'] = [['note', expr]]
+            if rng.random() < 0.35:
+                # the field carries the name of one of the rule's own bindings (or of a file-level variable): when its expression
+                # cannot be evaluated the field is absent - it does not fall back to whatever else goes by that name
+                if rng.random() < 0.5:
+                    r['lets'] = [['note', rng.choice(['amount * 2', '[r for r in orders if r.amount > 0]', 'uppercase(description)'])]] + r['lets']
+                else:
+                    m['variables'] = m['variables'] + [['note', rng.choice(['amount > 1', 'len(orders)'])]]
             if rng.random() < 0.3:
                 # a field whose value is a lazy generator (its body may fail only when something consumes it)
                 r['fields'].append(['lazy', rng.choice(LAZY_VALUE)])
@@ -271,7 +278,17 @@ def gen_case(rng, tier, i=None):
             vm['views'][k]['filter'] = expr
         else:
             expr = 'sum(payments) / 2' if injected else rng.choice(NATURAL_VIEW)
-            if rng.random() < 0.5:
+            r_scope = rng.random()
+            if r_scope < 0.3 and len(vm['views']) > 1:
+                # a view overrides a file-level variable for itself - with an expression that cannot be evaluated; the views after it
+                # read the file-level value
+                vm['globals'] = [['floor', rng.choice(['50', '500'])]]
+                vm['views'][k]['vars'] = [['floor', expr]]
+                vm['views'][k]['filter'] = '(%s) and (floor or not floor)' % vm['views'][k]['filter']
+                for v_ in vm['views'][k + 1:] + vm['views'][:k][:1]:
+                    v_['filter'] = 'total > floor'
+                case['var_scope'] = 'local'
+            elif r_scope < 0.6:
                 vm['views'][k]['vars'] = [['vv', expr]]
                 vm['views'][k]['filter'] = '(%s) and (vv or not vv)' % vm['views'][k]['filter']
                 case['var_scope'] = 'local'
